@@ -1,6 +1,8 @@
 import CuqiVerif.Model.Proto
 import CuqiVerif.Model.QMat
 import CuqiVerif.Model.C18
+import CuqiVerif.Model.C18_testproblems
+import CuqiVerif.Model.C18_interp
 open CuqiVerif CuqiVerif.Proto CuqiVerif.C18
 
 /-!
@@ -19,6 +21,14 @@ Line protocol of the C18 model (R = Rat).  `<fam>` is ten tokens `A0 A1 D E b0 b
   pipet  <n> <method> <solver> <ts> <fam> <p> <gridops> <tobs> <W> <om>   -> `<out>` | `err:<Class>`   (PDEModel._forward_func)
   pipes  <n> <solver> <fam> <p> <gridops> <W> <om>                         -> `<out>` | `err:<Class>`
   grad   <cap> <m> <dir> <J> <g>                          cap ∈ g | j | gj | n   -> `<vec>` | `err:<Class>`
+
+  tpp    <dim> <endpoint> <c0,c1,c2> <fmap> <gm> <solver> <x> <W|exact>      `Poisson1D(dim, endpoint, source=c0+c1 s+c2 s², map=fmap, observation_grid_map=gm)`
+        -> `ok <N> <grid_domain> <grid_sol> <grid_obs> <equal> <source grid> <diff_op at x> <rhs> <model.forward(x)>` | `err:<Class>`
+  tph    <dim> <endpoint> <max_time> <fmap> <gm> <x> <W>                   `Heat1D(dim, endpoint, max_time, map=fmap, observation_grid_map=gm)`
+        -> `ok <max_iter> <time_steps> <grid_sol> <grid_obs> <equal> <Dxx> <model.forward(x)>` | `err:<Class>`
+  obsq   <gridops> <u> <om>                              as `obss`, with the exact quadratic spline (`interp1dQuadratic`) instead of leaf data `W`
+  interpq <gs> <u> <go>                                  -> `v:<vec>` | `err:<Class>`   (`interp1d(gs, u, kind='quadratic')(go)` exactly)
+  fmap  : id | sq | aff:<a>:<b>          gm: none | pick:<i,j,…> | mid | shift
 
   solver: plain | t0 | t1 | t2 | t3 | raise       (what `linalg_solve` returns: x, (), (x,), (x, b[0]), (x, b[0], A[0,0]))
   tobs  : none | str:<s> | v:<vec>                W: matrix/vector of scipy's values, `err` if scipy refuses, `-` unused
@@ -206,6 +216,86 @@ def runSteadyOps (s : Steady (List Q) Q Q) (n : Nat) : List String → Option (L
       runSteadyOps (s.assemble p) n rest
     else none
 
+def parseFmap (s : String) : Option (FieldMap Q) :=
+  match s.splitOn ":" with
+  | ["id"] => some .ident
+  | ["sq"] => some .square
+  | ["aff", a, b] => do some (.affine (← parseRat a) (← parseRat b))
+  | _ => none
+
+def parseGm (s : String) : Option GridMap :=
+  match s.splitOn ":" with
+  | ["none"] => some .none
+  | ["mid"] => some .mid
+  | ["shift"] => some .shiftInterior
+  | ["pick", l] => (parseNatList l).map .pick
+  | _ => none
+
+def matLr (r c : Nat) (A : Mat Q) : List (List Q) := (List.range r).map fun i => (List.range c).map fun j => A i j
+
+def stepTP : List String → String
+  | ["tpp", dim, endpoint, src, fmap, gm, kind, x, w] =>
+    match dim.toNat?, parseRat endpoint, parseVec src, parseFmap fmap, parseGm gm, parseVec x,
+        (if w = "exact" then some (interp1dQuadratic QMat.solve) else interp1Of w) with
+    | some dim, some endpoint, some [c0, c1, c2], some fm, some gm, some x, some interp =>
+      if !(solverKinds.contains kind) then "bad-op" else
+      match poissonSetup dim endpoint gm with
+      | .error e => fmtErr e
+      | .ok s =>
+        if x.length != dim then "err:ValueError" else      -- `np.diag(x)` of the wrong size does not multiply with `Dx`
+        let source : Q → Q := fun t => c0 + c1 * t + c2 * t * t
+        let st : Steady (Vec Q) Q Q := poissonSteady s source fm (mkSolver s.N kind)
+        let f := st.form (vecFn x)
+        let pde : PDEObj (List Q) (List Q) (Arr Q) Q :=
+          { solveFor := fun p => ((st.assemble (vecFn p)).solve).map fun (u, info) => (vecL s.N u, info)
+            observe := fun u => observeSteady s.grids u interp .ident }
+        let out := match pdeModelForward pde x with
+          | .error e => fmtErr e
+          | .ok a => fmtArr a
+        s!"ok {s.N} {fmtVec s.gridDomain} {fmtOptGrid s.grids.sol} {fmtOptGrid s.grids.obs} {fmtBool s.grids.equal} {fmtVec s.srcGrid} {fmtMat (matLr s.N s.N f.op)} {fmtVec (vecL s.N f.rhs)} {out}"
+    | _, _, _, _, _, _, _ => "bad-op"
+  | ["obsq", gops, u, om] =>
+    match parseGridOps gops, parseVec u, parseOm om with
+    | some (g0, ops, _), some u, some om =>
+      let g := g0.run ops
+      let br := if g.equal then "direct" else "interp"
+      match observeSteady g u (interp1dQuadratic QMat.solve) om with
+      | .error e => s!"{br} {fmtErr e}"
+      | .ok a => s!"{br} {fmtArr a}"
+    | _, _, _ => "bad-op"
+  | ["interpq", gs, u, go] =>
+    match parseVec gs, parseVec u, parseVec go with
+    | some gs, some u, some go =>
+      match interp1dQuadratic QMat.solve gs u go with
+      | .error e => fmtErr e
+      | .ok v => "v:" ++ fmtVec v
+    | _, _, _ => "bad-op"
+  | ["tph", dim, endpoint, maxTime, fmap, gm, x, w] =>
+    match dim.toNat?, parseRat endpoint, parseRat maxTime, parseFmap fmap, parseGm gm, parseVec x, interp2Of w with
+    | some dim, some endpoint, some maxTime, some fm, some gm, some x, some interp =>
+      match heatMaxIterInt dim endpoint maxTime with
+      | none => "err:ZeroDivisionError"
+      | some mi =>
+        if mi < 0 then "err:ValueError" else
+        match heatSetup dim endpoint maxTime mi.toNat gm with
+        | .error e => fmtErr e
+        | .ok s =>
+          if x.length != dim then "err:ValueError" else
+          match Method.ofString "forward_euler" with
+          | none => "bad-op"
+          | some m =>
+            let pde : PDEObj (List Q) (List (List Q)) (Arr Q) Q :=
+              { solveFor := fun p =>
+                  (solveTime s.N m (heat1dForm s.dx (fun k => fm.apply (vecFn p k))) (mkSolver s.N "plain") s.timeSteps).map
+                    fun (levels, info) => (levelsToU s.N levels, info)
+                observe := fun U => observeTime s.grids s.timeSteps s.tobs U interp .ident }
+            let out := match pdeModelForward pde x with
+              | .error e => fmtErr e
+              | .ok a => fmtArr a
+            s!"ok {s.maxIter} {fmtVec s.timeSteps} {fmtOptGrid s.grids.sol} {fmtOptGrid s.grids.obs} {fmtBool s.grids.equal} {fmtMat (matLr s.N s.N (heatDxx s.dx))} {out}"
+    | _, _, _, _, _, _, _ => "bad-op"
+  | _ => "bad-op"
+
 def step : List String → String
   | "steady" :: n :: kind :: rest =>
     match n.toNat?, rest with
@@ -338,6 +428,6 @@ def step : List String → String
             | _, _ => 0
           fmtVec (vecL len v)
     | _, _ => "bad-op"
-  | _ => "bad-op"
+  | l => stepTP l
 
 def main : IO Unit := runDriver step
